@@ -158,6 +158,8 @@ def worker(wi, q, results, lock, checks):
                 p = subprocess.run([os.path.join(HERE, 'check'), pid], env=envc, stdout=subprocess.PIPE, stderr=subprocess.STDOUT, text=True)
                 if p.returncode != 0:
                     hits[pid] = [l.split('key=', 1)[1].strip() for l in p.stdout.splitlines() if 'key=' in l and l.startswith('[')][:3]
+                    if 'engine-failure' in p.stdout:
+                        res.setdefault('engine_failure_output', {})[pid] = p.stdout[-3000:]
             res['detected_by'] = hits
         res['secs'] = round(time.time() - t0, 1)
         open(path, 'w').write(orig)
